@@ -433,6 +433,33 @@ class AnnealResults(list):
             res = AnnealResults(res)
         return res
 
+    def __setitem__(self, index, value):
+        """__setitem__.
+
+        Override ``list.__setitem__`` to keep track of ``best`` attribute.
+
+        Parameters
+        ----------
+        index : int or slice.
+        value : AnnealResult object, or iterable of them if index is a slice.
+
+        """
+        super().__setitem__(index, value)
+        self.best = _recompute_best(self)
+
+    def __delitem__(self, index):
+        """__delitem__.
+
+        Override ``list.__delitem__`` to keep track of ``best`` attribute.
+
+        Parameters
+        ----------
+        index : int or slice.
+
+        """
+        super().__delitem__(index)
+        self.best = _recompute_best(self)
+
     def clear(self):
         """clear.
 
@@ -631,7 +658,8 @@ class AnnealResults(list):
 
         """
         if isinstance(other, AnnealResults):
-            if other.best < self.best:
+            if other.best is not None and (
+                    self.best is None or other.best < self.best):
                 self.best = other.best
             return super().__iadd__(other)
 
@@ -650,7 +678,8 @@ class AnnealResults(list):
 
         """
         if isinstance(other, AnnealResults):
-            if other.best < self.best:
+            if other.best is not None and (
+                    self.best is None or other.best < self.best):
                 self.best = other.best
             super().extend(other)
         else:
